@@ -145,7 +145,10 @@ class C12Spec(c01.C01Spec):
             if sub is None:
                 continue
             h = w.hosts[sub[0]]
-            if orc.leaders.get(orc.G[p][2]) == sub[0] and h.node is not None and h.inc == sub[3] and h.node.raftLastApplied >= p and n != 1:
+            # (a node that caught up over the position by installing a snapshot never executes it, and its callbacks
+            # for such positions are not invoked - for ordinary commands alike)
+            if orc.leaders.get(orc.G[p][2]) == sub[0] and h.node is not None and h.inc == sub[3] and h.node.raftLastApplied >= p and \
+                    orc.execs.get((sub[0], sub[3], p), 0) >= 1 and n != 1:
                 orc.flag('raise_callback_count', 'the callback of the raising command %d (submitted on and appended by host %d, committed at %d) fired %d times' % (tag, sub[0], p, n))
                 return
         sts = set((h.node.raftLastApplied, orc.app.model.observe(h.node)) for h in w.hosts if h.node is not None)
